@@ -1,7 +1,7 @@
 SPECIFICATION Spec
 CONSTANTS Messages <- MCMessages
-          AsCoded = FALSE
-          Fixed = FALSE
+          AsCoded = TRUE
+          Fixed = TRUE
           Mode = "http"
           MaxMsgs = 1
           HasTimeout = TRUE
